@@ -21,6 +21,10 @@ type dryStep struct {
 	dry      bool
 	baseline string
 	files    []tfile
+	// round 5: flag combinations
+	noAllow  bool // neither --allow-dirty nor --baseline (the journal table makes the database dirty)
+	both     bool // --baseline AND --allow-dirty
+	wantFail bool // the command is expected to be refused (NotClean / baseline not found)
 }
 
 type dryCase struct {
@@ -35,7 +39,7 @@ func (s dryStep) tokens() []string {
 		bl = hexOf(s.baseline)
 	}
 	allow := "1"
-	if s.baseline != "" {
+	if (s.baseline != "" && !s.both) || s.noAllow {
 		allow = "0"
 	}
 	d := "0"
@@ -108,6 +112,7 @@ func genC13Dry(w *out.W, tier string, mu *sync.Mutex) []func() {
 			}
 		}
 	}
+	fns = append(fns, dryFlagCases(w, mu, &id)...)
 	for i, sc := range schemaApplyCases() {
 		sc := sc
 		cid := fmt.Sprintf("c13sa-%d", i+1)
@@ -156,7 +161,8 @@ func runDry(w *out.W, mu *sync.Mutex, c dryCase, nontriv bool) {
 		}
 		if s.baseline != "" {
 			args = append(args, "--baseline", s.baseline)
-		} else {
+		}
+		if (s.baseline == "" && !s.noAllow) || s.both {
 			args = append(args, "--allow-dirty")
 		}
 		before, _ := clirun.Dump(db, false)
@@ -186,7 +192,11 @@ func runDry(w *out.W, mu *sync.Mutex, c dryCase, nontriv bool) {
 			continue
 		}
 		desc := fmt.Sprintf("migrate apply --dry-run %s baseline=%q exit=%d", c.label, s.baseline, r.Exit)
-		if r.Exit != 0 {
+		if s.wantFail && r.Exit == 0 {
+			viols = append(viols, viol{"dry-run-flag-exit", desc + ": expected to be refused (dirty database without --allow-dirty / baseline version not in the directory)"})
+			continue
+		}
+		if r.Exit != 0 && !s.wantFail {
 			viols = append(viols, viol{"dry-run-failed", desc + " stderr=" + r.Stderr})
 			continue
 		}
@@ -377,6 +387,14 @@ table "keep" {
 		// a statement fails AND foreign keys are on: rollback, pragma restored
 		{name: "fk-on-and-statement-fails", setup: append(append([]string{}, fkSetup...), "INSERT INTO child VALUES (3, NULL)"),
 			desired: parent + "CREATE TABLE child (id INTEGER PRIMARY KEY, pid INTEGER NOT NULL, CONSTRAINT c_p FOREIGN KEY (pid) REFERENCES parent (id));\n" + o, fk: true, fkCheck: true, single: true, mustErr: true},
+		// round 5: an EARLIER change is the rebuild of a table that other rows reference (its plan carries its own
+		// PRAGMA foreign_keys = off/on -- a no-op inside the transaction the opener began with foreign keys already off,
+		// effective without one), a LATER change's statement fails: default -> nothing of the rebuild stays; none -> the
+		// whole rebuild stays (prefix), the referencing rows are intact; and the control where nothing fails
+		{name: "r5-rebuild-of-referenced-table-then-later-change-fails", setup: r5Setup(true),
+			desired: r5Desired + "CREATE UNIQUE INDEX t_a ON t (a);\n", fk: true, fkCheck: true, mustErr: true},
+		{name: "r5-rebuild-of-referenced-table-then-later-change-ok", setup: r5Setup(false),
+			desired: r5Desired + "CREATE UNIQUE INDEX t_a ON t (a);\n", fk: true, fkCheck: true},
 		// foreign keys off: nobody checks
 		{name: "fk-off-add-constraint-over-orphan", setup: fkSetup, desired: parent + childFk + o, fk: false, fkCheck: true, single: true},
 	}
@@ -694,4 +712,67 @@ func runSchemaApplyFk(w *out.W, mu *sync.Mutex, id string, c saCase, tmp, db, re
 			w.Violation(id, "schema-apply-fk-state", fmt.Sprintf("%s: foreign_key_check of the target now reports %v, expected %v", desc, got, want))
 		}
 	}
+}
+
+// dryFlagCases (round 5): `migrate apply --dry-run` x --baseline / --allow-dirty / count, on a fresh target and
+// on targets with a history (C13_dry_run_flags, C13_dry_run_count).
+func dryFlagCases(w *out.W, mu *sync.Mutex, id *int) []func() {
+	var fns []func()
+	n := 0
+	for _, sh := range [][]int{{2, 1}, {1, 2, 1}} {
+		base := shapeFiles(sh)
+		lastVer := base[len(base)-1].Ver
+		broken := cloneFiles(base)
+		broken[0].Bad = len(base[0].Stmts) - 1
+		type prep struct {
+			name  string
+			steps []dryStep
+		}
+		preps := []prep{{"fresh", nil},
+			{"one-applied", []dryStep{{mode: "file", n: 1, files: base}}},
+			{"all-applied", []dryStep{{mode: "file", files: base}}}}
+		if len(base[0].Stmts) >= 2 {
+			preps = append(preps, prep{"partial", []dryStep{{mode: "none", files: broken}}})
+		}
+		for _, pr := range preps {
+			fresh := pr.name == "fresh"
+			vars := []dryStep{
+				{baseline: "1"}, {baseline: "1", both: true, wantFail: true}, {baseline: "1", n: 1}, {baseline: lastVer},
+				{baseline: "9", wantFail: fresh}, {noAllow: true, wantFail: fresh}, {n: len(base) + 2}, {baseline: "1", n: len(base) + 2},
+			}
+			modes := []string{"file"}
+			if fresh {
+				modes = []string{"none", "file", "all"}
+			}
+			for _, m := range modes {
+				for _, v := range vars {
+					v.mode, v.dry, v.files = m, true, base
+					*id++
+					n++
+					c := dryCase{id: fmt.Sprintf("c13dry-%d", *id), label: fmt.Sprintf("flags shape=%v target=%s mode=%s baseline=%q allow-dirty=%v count=%d", sh, pr.name, m, v.baseline, !v.noAllow && (v.baseline == "" || v.both), v.n)}
+					c.steps = append(append(c.steps, pr.steps...), v)
+					// then the same command for real (same flags), to see what the dry run announced
+					real := v
+					real.dry = false
+					c.steps = append(c.steps, real, dryStep{mode: m, files: base})
+					fns = append(fns, func() { runDry(w, mu, c, true) })
+				}
+			}
+		}
+	}
+	w.Rule += fmt.Sprintf(". Round 5: %d flag scenarios: --dry-run x {--baseline first / last / unknown version, with and without --allow-dirty, neither flag (dirty database), count 1 / beyond the pending files} x target {fresh (3 tx-modes), one file applied, all applied, partial revision}; then the same command without --dry-run and a plain apply", n)
+	return fns
+}
+
+// round 5: p is referenced by rows of c; p is rebuilt (v becomes NOT NULL); t gets a unique index (over duplicates or not)
+const r5Desired = "CREATE TABLE c (id INTEGER PRIMARY KEY, pid INTEGER REFERENCES p (id));\nCREATE TABLE p (id INTEGER PRIMARY KEY, v INTEGER NOT NULL);\nCREATE TABLE t (a INTEGER, b INTEGER);\n"
+
+func r5Setup(dups bool) []string {
+	s := []string{"CREATE TABLE p (id INTEGER PRIMARY KEY, v INTEGER)", "INSERT INTO p VALUES (1, 5)", "INSERT INTO p VALUES (2, 6)",
+		"CREATE TABLE c (id INTEGER PRIMARY KEY, pid INTEGER REFERENCES p (id))", "INSERT INTO c VALUES (1, 1)", "INSERT INTO c VALUES (2, 2)",
+		"CREATE TABLE t (a INTEGER, b INTEGER)", "INSERT INTO t VALUES (1, 1)"}
+	if dups {
+		return append(s, "INSERT INTO t VALUES (1, 2)")
+	}
+	return append(s, "INSERT INTO t VALUES (2, 2)")
 }
